@@ -162,4 +162,106 @@ theorem rowsFrom_kind_ret (rows : List (List Int)) (k : Nat) (a b : Int) : Pos.a
   | nil => simp [rowsFrom]
   | cons r rs ih => simp [rowsFrom, ih]
 
+/-! ### the statements re-exported by Props/C09.lean and used by C10 -/
+
+/-- **Application is exact.**  `PopulateGraphFromSummary` on a fresh summary graph creates, in order,
+exactly the edges of the in-range written positions; the positions for which the helper returned
+`false` (nothing is logged) are exactly the out-of-range ones; the `in` maps mirror the `out` maps
+with the same tuple index and are functional. -/
+theorem apply_exact' (sg : Sig) (hasRet : Bool) (s : Summary) :
+    (apply sg hasRet s).g.out = (s.listed.filter (Pos.ok sg hasRet)).map Pos.edge ∧
+    (apply sg hasRet s).dropped = s.listed.filter (fun p => !p.ok sg hasRet) ∧
+    (∀ d src i, (d, src, i) ∈ (apply sg hasRet s).g.inn ↔ (src, d, i) ∈ (apply sg hasRet s).g.out) ∧
+    inKeysUnique (apply sg hasRet s).g.inn = true := by
+  have h := foldl_applyPos sg hasRet s.listed {} mirror_empty
+  simp only [List.nil_append] at h
+  exact ⟨h.1, h.2.1, h.2.2.iff, h.2.2.uniq⟩
+
+/-- For a conforming summary nothing is dropped and every written position has its edge. -/
+theorem apply_conforming' (sg : Sig) (hasRet : Bool) (s : Summary) (hc : conforms sg hasRet s = true) :
+    (apply sg hasRet s).dropped = [] ∧ (apply sg hasRet s).g.out = s.listed.map Pos.edge := by
+  obtain ⟨h1, h2, -, -⟩ := apply_exact' sg hasRet s
+  simp only [conforms, List.all_eq_true] at hc
+  refine ⟨?_, ?_⟩
+  · rw [h2, List.filter_eq_nil_iff]; intro p hp; simp [hc p hp]
+  · rw [h1, List.filter_eq_self.2 hc]
+
+/-- The silently discarded positions are exactly the written positions out of range. -/
+theorem dropped_iff_out_of_range' (sg : Sig) (hasRet : Bool) (s : Summary) (p : Pos) :
+    p ∈ (apply sg hasRet s).dropped ↔ p ∈ s.listed ∧ p.ok sg hasRet = false := by
+  rw [(apply_exact' sg hasRet s).2.1]; simp [List.mem_filter]
+
+theorem ok_arg_iff' (sg : Sig) (hasRet : Bool) (a b : Int) :
+    (Pos.arg a b).ok sg hasRet = true ↔ (0 ≤ a ∧ a < sg.nParams) ∧ (0 ≤ b ∧ b < sg.nParams) := by
+  simp [Pos.ok, inRange]
+
+theorem ok_ret_iff' (sg : Sig) (hasRet : Bool) (a j : Int) :
+    (Pos.ret a j).ok sg hasRet = true ↔ (0 ≤ a ∧ a < sg.nParams) ∧ (0 ≤ j ∧ j < sg.nResults) ∧ hasRet = true := by
+  simp [Pos.ok, inRange, and_assoc]
+
+/-- written positions, read off the matrices: `Rets[i] ∋ j` / `Args[i] ∋ k`. -/
+theorem listed_ret_iff' (s : Summary) (i j : Int) :
+    Pos.ret i j ∈ s.listed ↔ ∃ (n : Nat) (row : List Int), i = (n : Int) ∧ s.rets[n]? = some row ∧ j ∈ row := by
+  simp only [Summary.listed, List.mem_append, rowsFrom_kind_arg, false_or]
+  rw [mem_rowsFrom Pos.ret (by intro a b c d h; cases h; exact ⟨rfl, rfl⟩)]
+  simp
+
+theorem listed_arg_iff' (s : Summary) (i k : Int) :
+    Pos.arg i k ∈ s.listed ↔ ∃ (n : Nat) (row : List Int), i = (n : Int) ∧ s.args[n]? = some row ∧ k ∈ row := by
+  simp only [Summary.listed, List.mem_append, rowsFrom_kind_ret, or_false]
+  rw [mem_rowsFrom Pos.arg (by intro a b c d h; cases h; exact ⟨rfl, rfl⟩)]
+  simp
+
+/-- **Edges are exactly the written in-range flows** (used again by C10): for in-range `i`, `j`
+the summary graph has the edge `param i → result j` iff `Rets[i]` lists `j`; likewise `param i → param k`
+iff `Args[i]` lists `k`. -/
+theorem edge_iff_listed' (sg : Sig) (s : Summary) (i : Nat) (hi : i < sg.nParams) :
+    (∀ j, j < sg.nResults →
+      ((PNode.param i, PNode.ret j, (j : Int)) ∈ (apply sg true s).g.out ↔ ∃ row, s.rets[i]? = some row ∧ (j : Int) ∈ row)) ∧
+    (∀ k, k < sg.nParams →
+      ((PNode.param i, PNode.param k, (0 : Int)) ∈ (apply sg true s).g.out ↔ ∃ row, s.args[i]? = some row ∧ (k : Int) ∈ row)) := by
+  have hout := (apply_exact' sg true s).1
+  constructor
+  · intro j hj
+    rw [hout, List.mem_map]
+    constructor
+    · rintro ⟨p, hp, he⟩
+      rw [List.mem_filter] at hp
+      cases p with
+      | arg a b => simp [Pos.edge] at he
+      | ret a b =>
+        have hok := (ok_ret_iff' sg true a b).1 hp.2
+        simp only [Pos.edge, Prod.mk.injEq, PNode.param.injEq, PNode.ret.injEq] at he
+        have ha : a = (i : Int) := by omega
+        have hb : b = (j : Int) := by omega
+        subst ha hb
+        obtain ⟨n, row, hn, hr, hm⟩ := (listed_ret_iff' s _ _).1 hp.1
+        have : n = i := by omega
+        subst this
+        exact ⟨row, hr, hm⟩
+    · rintro ⟨row, hr, hm⟩
+      refine ⟨Pos.ret i j, List.mem_filter.2 ⟨(listed_ret_iff' s _ _).2 ⟨i, row, rfl, hr, hm⟩, ?_⟩, by simp [Pos.edge]⟩
+      rw [ok_ret_iff']; exact ⟨⟨by omega, by omega⟩, ⟨by omega, by omega⟩, rfl⟩
+  · intro k hk
+    rw [hout, List.mem_map]
+    constructor
+    · rintro ⟨p, hp, he⟩
+      rw [List.mem_filter] at hp
+      cases p with
+      | ret a b => simp [Pos.edge] at he
+      | arg a b =>
+        have hok := (ok_arg_iff' sg true a b).1 hp.2
+        simp only [Pos.edge, Prod.mk.injEq, PNode.param.injEq, and_true] at he
+        have ha : a = (i : Int) := by omega
+        have hb : b = (k : Int) := by omega
+        subst ha hb
+        obtain ⟨n, row, hn, hr, hm⟩ := (listed_arg_iff' s _ _).1 hp.1
+        have : n = i := by omega
+        subst this
+        exact ⟨row, hr, hm⟩
+    · rintro ⟨row, hr, hm⟩
+      refine ⟨Pos.arg i k, List.mem_filter.2 ⟨(listed_arg_iff' s _ _).2 ⟨i, row, rfl, hr, hm⟩, ?_⟩, by simp [Pos.edge]⟩
+      rw [ok_arg_iff']; exact ⟨⟨by omega, by omega⟩, ⟨by omega, by omega⟩⟩
+
+
 end Argot.Summ
